@@ -91,7 +91,21 @@ type oblEvidence struct {
 func cmdCheck(args []string) int {
 	fs := flag.NewFlagSet("check", flag.ExitOnError)
 	tier := fs.String("tier", "", "quick | thorough")
-	fs.Parse(args)
+	// accept flags after the property id as well (`check C02 --tier quick`)
+	var flags, pos []string
+	for i := 0; i < len(args); i++ {
+		a := args[i]
+		if strings.HasPrefix(a, "-") {
+			flags = append(flags, a)
+			if !strings.Contains(a, "=") && i+1 < len(args) {
+				flags = append(flags, args[i+1])
+				i++
+			}
+			continue
+		}
+		pos = append(pos, a)
+	}
+	fs.Parse(append(flags, pos...))
 	if fs.NArg() != 1 {
 		fmt.Fprintln(os.Stderr, "usage: govc check <property-id> [--tier quick|thorough]")
 		return 2
